@@ -183,6 +183,66 @@ CHECKS.update({
         design_ref="DESIGN.md §4 C18"),
 })
 
+CHECKS.update({
+    "C05": dict(
+        text="Coq: the two models are composed (Ser/RoundTrip.v: unembed, roundtrip_case = deserialize-model after "
+             "serialize-model is the identity, value_eqb distinguishing list / tuple / set / frozenset) and evaluated by "
+             "vm_compute on every value the implementation round-tripped; theorem C05_any_data_round_trip (the JSON value built "
+             "for Any data reads back as the same data, any depth). Partial: the inductive round-trip theorem over the typed "
+             "fragment is not proved; it is checked case by case on the models. Tie: model-free round trips on the "
+             "implementation (direct, through json.dumps/loads, and the dual on accepted data) + model composition.",
+        note=SER_NOTE + " The bijective fragment (no serialized method, skip(serialization_if), fall_back_on_default, "
+             "pass_through, exclude_none, dependent_required, ambiguous unions) is delimited by the generator.",
+        technique="Coq model composition evaluated on the cases + lemma on the data embedding + metamorphic round trips",
+        design_ref="DESIGN.md §4 C05"),
+    "C07": dict(
+        text="Every serialize output is validated with jsonschema against serialization_schema generated under the same global "
+             "settings (exclude_defaults / exclude_none set in settings.serialization, aliaser, additional_properties), on the "
+             "C04 universes and well-typed, constraint-satisfying values; the Coq validator model jvalid is compared with "
+             "jsonschema on the same (schema, output) pairs; Coq theorem: the merged union schema accepts whatever one "
+             "alternative's schema accepts (C07_union_schema_accepts_each_alternative). Partial: the serialization schema "
+             "builder is not modelled, so the property itself is explored, not proved.",
+        note=SCHEMA_NOTE + " The oracle for validity is jsonschema (Draft 2020-12).",
+        category="exploration",
+        technique="differential exploration with a jsonschema oracle + Coq validator correspondence + union-schema lemma",
+        design_ref="DESIGN.md §4 C07"),
+    "C11": dict(
+        text="Coq model of the external name (alias metadata, class aliaser with override=False exemptions, dynamic aliaser; "
+             "to_camel_case modelled character by character) with theorems: required names are property names, override=False "
+             "exempts from the class aliaser only, injective aliasers keep distinct names. Tie: 8 views observed on the "
+             "implementation (keys consumed by deserialize, produced by serialize, properties / required / dependentRequired of "
+             "both schemas, error locations incl. nested and validator-yielded aliases, GraphQL field names) compared inside Coq "
+             "with the model on generated classes x class aliaser x dynamic aliaser (per call, settings.aliaser, camel_case).",
+        note="Trusted: Coq kernel; Small/Names.v validated by the correspondence; GraphQL names compared only when valid GraphQL "
+             "names; flattened fields and GraphQL argument names are covered by C19 / not generated here. No axioms.",
+        technique="Coq model of the naming function + correspondence over 8 views",
+        design_ref="DESIGN.md §4 C11"),
+    "C12": dict(
+        text="Coq model of conversion resolution and execution (dynamic vs registered, propagation through collections and "
+             "unions, not into object fields, field-level conversions, identity, single / union / catch_value_error methods, "
+             "compile-time Unsupported) with theorems: one deserializer = composition f o deserialize(S), registration order, "
+             "first accepting deserializer wins, dynamic conversions stop at object fields and reach union alternatives, "
+             "identity bypasses a registered conversion. Tie: generated worlds of opaque classes with tagging converters; the "
+             "implementation's result is compared as a term with the model (vm_compute); schema of converted types vs "
+             "acceptance (jsonschema); serializers: serialize(T, v) = serialize(U, g(v)), inherited by subclasses.",
+        note="Trusted: Coq kernel; Small/Conv.v validated by the correspondence (3600 cases per quick run); sub_conversion, generic "
+             "and lazy conversions, and the JSON schema merge with the target's annotations are not modelled. No axioms.",
+        technique="Coq model + equational theorems + term-level correspondence with tagging converters",
+        design_ref="DESIGN.md §4 C12"),
+    "C19": dict(
+        text="Coq model of the GraphQL type mapping (named type, list, non-null for output fields and arguments) with theorems: "
+             "an output field is non-null iff its type is neither Optional nor a union with Undefined; an argument is non-null "
+             "iff moreover it is required or has a serializable default. Tie: printed GraphQL types of every field / argument "
+             "compared with the model; graphql-core validation, introspection, print_schema; a query selecting every field vs "
+             "the expected data (enums by name, Undefined as null, no omission); arguments valid / omitted / invalid: resolver "
+             "invoked with the deserialized values or not invoked with a GraphQL error.",
+        note="Trusted: Coq kernel; graphql-core as validator and executor; Small/Gql.v validated by the correspondence; "
+             "interfaces, unions of objects, relay, id_types, flattened fields, subscriptions, error_handler are not generated. "
+             "Partial: execution equality is explored, not proved. No axioms.",
+        technique="Coq model of the type mapping + correspondence + execution / argument exploration with graphql-core",
+        design_ref="DESIGN.md §4 C19"),
+})
+
 NOT_YET = {}
 
 
@@ -200,7 +260,7 @@ def main():
                 evidence_file=f"/verif/evidence/{pid}.json",
                 replay_cmd_template="./vcheck replay {path}",
                 engine="coq+correspondence",
-                level_claimed=dict(category="proof", text=c["text"], design_ref=c["design_ref"]),
+                level_claimed=dict(category=c.get("category", "proof"), text=c["text"], design_ref=c["design_ref"]),
                 level_note=c["note"],
                 technique=c["technique"],
             ))
